@@ -199,6 +199,10 @@ def _mounts_case(undecodable):
         st.sampled_from([b"", b"# a comment", b"   ", b"onlydevice", b"dev /mnt", b"dev /mnt ext4",
                          b"\t/dev/sdb1 /lead ext4 rw 0 0", b"#/dev/sdc /c ext4 rw 0 0"]),
         junk,
+        # no device ("none") on a file system type that /proc/filesystems may
+        # list as physical: all=False must still leave it out
+        st.tuples(st.sampled_from(MNT_DIR[:6]), st.sampled_from([b"ext4", b"xfs", b"btrfs", b"zfs", b"fuseblk"])).map(
+            lambda t: b"none " + t[0] + b" " + t[1] + b" rw 0 0"),
     )
     fsline = st.sampled_from([b"nodev\tsysfs", b"nodev\ttmpfs", b"nodev\tproc", b"\text4", b"\txfs",
                               b"nodev\tzfs", b"\tbtrfs", b"nodev\toverlay", b"\tfuseblk"])
